@@ -1,4 +1,7 @@
 import EmmyVerif.Lemmas.Events
+import EmmyVerif.Lemmas.EventsCore
+import EmmyVerif.Lemmas.Reader
+import EmmyVerif.Lemmas.EventsMarker
 /-!
 # C01 — Syntax trees are lossless for every input text
 
@@ -68,3 +71,182 @@ example :
   rfl
 
 end Green
+
+/-!
+## Layer `Core`: the parser core hands every lexer token to the event stream
+
+`Core.bump` / `Core.parseTrivia` / `Core.parseComments` model `LuaParser::bump`, `skip_trivia`,
+`parse_trivia_tokens` (blank-line and inline-comment rules) and `parse_comments`; `Core.chunkLoop`
+models the loop of `parse_chunk` with **any** grammar behaviour `g` (the grammar can move the token
+index only through `bump`). Tied to the Rust by the correspondence run (`tree.core`): the real event
+stream of every generated parse must be the model's item list (direct `EatToken`s with the lexer
+token's exact range, comment groups tiled by doc tokens, one `Comment` node per group).
+-/
+namespace Core
+
+/-- **C01 bump_emits_all.** Whatever the grammar does (`g` = any choice of how many tokens each
+`parse_stats` call consumes), when `parse_chunk` returns, the events cover every lexer token
+exactly once, in order: each token is either a direct `EatToken` or inside exactly one comment
+group handed to the doc parser. Holds for every token list (no `TkEof`/`None` kinds, which the
+lexer never produces), doc on or off. -/
+theorem C01_bump_emits_all (toks : List TK) (docOn : Bool) (g : PS → Nat)
+    (hne : ∀ k ∈ toks, k ≠ TK.eof) :
+    cover (chunkLoop toks docOn g toks.length (init toks docOn)).events = List.range toks.length := by
+  obtain ⟨h1, h2⟩ := init_cover toks docOn hne
+  obtain ⟨⟨c, _⟩, e⟩ := chunkLoop_spec toks docOn hne g toks.length (init toks docOn) ⟨h1, h2⟩ (by omega)
+  rw [c, e]
+
+/-- the same for a plain run of `bump`s to the end -/
+theorem C01_parseEvents_cover (toks : List TK) (docOn : Bool) (hne : ∀ k ∈ toks, k ≠ TK.eof) :
+    cover (parseEvents toks docOn) = List.range toks.length := by
+  obtain ⟨h1, h2⟩ := init_cover toks docOn hne
+  exact bumpAll_cover toks docOn hne toks.length _ h1 h2 (by omega)
+
+/-- after *any* number of bumps the events cover exactly the tokens before the current one -/
+theorem C01_bumps_cover_prefix (toks : List TK) (docOn : Bool) (n : Nat) (hne : ∀ k ∈ toks, k ≠ TK.eof) :
+    cover (bumpN toks docOn n (init toks docOn)).events = List.range (bumpN toks docOn n (init toks docOn)).idx := by
+  obtain ⟨h1, h2⟩ := init_cover toks docOn hne
+  exact (bumpN_inv toks docOn hne n _ ⟨h1, h2⟩).1.1
+
+/-! Non-vacuity (tests): `x --c⏎ ⏎ --d⏎y` — inline comment closes its group at the first end of
+line; doc on: groups `[1,2)` and `[5,6)`. -/
+example : parseEvents [.other, .ws, .comment, .eol, .eol, .comment, .eol, .other] true
+    = [.eat 0, .eat 1, .doc 2 3, .eat 3, .eat 4, .doc 5 6, .eat 6, .eat 7] := by decide
+example : parseEvents [.other, .ws, .comment, .eol, .eol, .comment, .eol, .other] false
+    = [.eat 0, .eat 1, .eat 2, .eat 3, .eat 4, .eat 5, .eat 6, .eat 7] := by decide
+/-- two comment lines form one group, a blank line ends it -/
+example : parseEvents [.comment, .eol, .comment, .eol, .eol, .other] true
+    = [.doc 0 3, .eat 3, .eat 4, .eat 5] := by decide
+
+end Core
+
+/-!
+## Layer `Reader`: the lexer's token ranges tile the text
+
+`Reader.R` models `text/reader.rs` (end of input by position — the `fix:` for NUL); `tokenizeA arm`
+is `LuaLexer::tokenize` for an **arbitrary** lexer arm (any number of bumps per token, as a function
+of the reader state): the lexer can move through the text only by `Reader::bump`. Tied to the Rust
+by `tree.reader` (random op sequences on the real public `Reader` vs the model, all observables) and
+`tree.lexloop` (the real token list replayed as a bump schedule).
+-/
+namespace Reader
+
+/-- **C01 reader range invariant.** After any sequence of `bump`/`reset_buff`, the consumed bytes
+plus the bytes of the remaining chars are the whole text; so `current_range` lies inside the valid
+range and the reader is at the end exactly when nothing remains — also when the text contains
+`'\0'`. -/
+theorem C01_reader_range_inv (t : List Char) (s : Nat) (ops : List Bool) :
+    let r := ops.foldl (fun r b => if b then bump r else resetBuff r) (new t s)
+    WF r ∧ (currentRange r).1 + (currentRange r).2 ≤ s + len8 t ∧ (isEof r = true ↔ r.rest = []) := by
+  have hw : ∀ (ops : List Bool) (r : R), WF r → r.start = s → r.total = len8 t →
+      WF (ops.foldl (fun r b => if b then bump r else resetBuff r) r) ∧
+      (ops.foldl (fun r b => if b then bump r else resetBuff r) r).start = s ∧
+      (ops.foldl (fun r b => if b then bump r else resetBuff r) r).total = len8 t := by
+    intro ops
+    induction ops with
+    | nil => intro r h1 h2 h3; exact ⟨h1, h2, h3⟩
+    | cons b bs ih =>
+      intro r h1 h2 h3
+      simp only [List.foldl_cons]
+      cases b with
+      | true =>
+        obtain ⟨_, f2, f3, _⟩ := bump_fields r
+        exact ih _ (wf_bump r h1) (by simp only [if_true]; omega) (by simp only [if_true]; omega)
+      | false => exact ih _ (wf_reset r h1) h2 h3
+  obtain ⟨h1, h2, h3⟩ := hw ops (new t s) (wf_new t s) rfl rfl
+  refine ⟨h1, ?_, isEof_iff _ h1⟩
+  simp only [currentRange]
+  simp only [WF] at h1
+  omega
+
+/-- **C01 tokenize tiles.** For every text and every lexer arm that bumps at least once before the
+end of input, the token ranges of `tokenize` are contiguous, start at 0 and end at the byte length
+of the text: no gap, no overlap, no dropped suffix (NUL, BOM, CR are ordinary chars). -/
+theorem C01_tokenize_tiles (t : List Char) (arm : R → Nat) (harm : ∀ r, isEof r = false → 1 ≤ arm r) :
+    Tiles (tokenizeA arm (t.length + 1) (new t 0)).1 0 (len8 t) := by
+  obtain ⟨h1, h2, h3, h4⟩ := tokenizeA_tiles arm (t.length + 1) (new t 0) (wf_new t 0)
+  obtain ⟨c1, _⟩ := tokenizeA_complete arm harm (t.length + 1) (new t 0) (wf_new t 0) (by simp [new])
+  have he : endPos (tokenizeA arm (t.length + 1) (new t 0)).2 = len8 t := by
+    have hr := (isEof_iff _ h2).mp c1
+    simp only [WF, hr, len8] at h2
+    simp only [endPos]
+    have : (new t 0).total = len8 t := rfl
+    omega
+  have hs : (new t 0).start + endPos (new t 0) = 0 := by simp [new, endPos]
+  rw [hs, he] at h1
+  simpa [new] using h1
+
+/-- without the progress assumption the ranges still tile a prefix (whatever the arm does) -/
+theorem C01_tokenize_tiles_prefix (t : List Char) (arm : R → Nat) (fuel : Nat) :
+    Tiles (tokenizeA arm fuel (new t 0)).1 0 (endPos (tokenizeA arm fuel (new t 0)).2) := by
+  obtain ⟨h1, _, _, _⟩ := tokenizeA_tiles arm fuel (new t 0) (wf_new t 0)
+  simpa [new, endPos] using h1
+
+/-! Non-vacuity (tests): a text with NUL, BOM and CR; arm = "one char per token". -/
+example : (tokenizeA (fun _ => 1) 6 (new ['a', '\x00', '\uFEFF', '\r', 'é'] 0)).1
+    = [(0, 1), (1, 1), (2, 3), (5, 1), (6, 2)] := by decide
+
+end Reader
+
+/-!
+## Layer `Marker`: `mark_level` and the error recovery of `parse_stats`
+
+`Marker.step` models `mark` / `complete` / `undo` / `precede` / `bump` of marker.rs after the `fix:`
+commit (05dbe7f); `Marker.recover` is the recovery loop of `parse_stats` / `parse_tag`
+(`push_node_end` × `mark_level - level`). Checked on the implementation every run: the final
+`mark_level` of every real parse (hook) equals `#NodeStart(non-None) − #NodeEnd` of its event stream.
+-/
+namespace Marker
+
+/-- **C01 mark_level invariant.** For every sequence of marker operations (each marker completed or
+undone at most once — enforced by Rust's move semantics — and possibly never: dropped on an `Err`),
+`mark_level` is exactly the number of `NodeStart`s the tree builder will open minus the `NodeEnd`s,
+and equals the number of live (unfinished) markers. -/
+theorem C01_mark_level_inv (ops : List Op) (s : S) (hops : ∀ op ∈ ops, op ≠ Op.nodeEnd)
+    (hr : run step S.init ops = some s) :
+    s.markLevel + ends s.events = starts s.events ∧ s.markLevel = s.live.length := by
+  have h := run_inv ops S.init s hops inv_init hr
+  exact ⟨by rw [h.level]; exact h.count, h.level⟩
+
+/-- before the fix the invariant failed: `mark` then `undo` left `mark_level = 1` with no open node
+(the surplus `NodeEnd`s of the recovery then closed `Block` and `Chunk`) -/
+theorem C01_mark_level_old_witness :
+    ∃ s, run stepOld S.init [.mark, .undo 0] = some s ∧ s.markLevel = 1 ∧ starts s.events = 0 ∧ ends s.events = 0 :=
+  ⟨_, rfl, by decide, by decide, by decide⟩
+
+/-- **C01 recovery is balanced.** Let a statement fail after any marker operations that only
+finish markers it created itself (`level` was read before it started). Then `mark_level` did not
+drop below `level`, and after the recovery loop `mark_level = level` and the number of open nodes
+is what it was before the statement: exactly the nodes the failed statement left open are closed,
+never a node opened outside it. -/
+theorem C01_recovery_balanced (s0 s1 : S) (ops : List Op) (h0 : Inv s0)
+    (hc : ∀ op ∈ ops, consumesOnlyFrom s0.events.length op = true)
+    (hr : run step s0 ops = some s1) :
+    s0.markLevel ≤ s1.markLevel ∧
+    (recover s0.markLevel s1).markLevel = s0.markLevel ∧
+    starts (recover s0.markLevel s1).events + ends s0.events
+      = starts s0.events + ends (recover s0.markLevel s1).events := by
+  have hne : ∀ op ∈ ops, op ≠ Op.nodeEnd := by
+    intro op ho e; subst e; have := hc _ ho; simp [consumesOnlyFrom] at this
+  have h1 := run_inv ops s0 s1 hne h0 hr
+  have hl := run_old_live s0.events.length ops s0 s1 hc hr
+  rw [filter_all_lt s0.live _ (fun q hq => live_lt s0 h0 q hq)] at hl
+  have hl2 := length_filter_le' s1.live (· < s0.events.length)
+  have hle : s0.markLevel ≤ s1.markLevel := by rw [h0.level, h1.level]; omega
+  obtain ⟨a, b, c⟩ := closeN_spec (s1.markLevel - s0.markLevel) s1 (by omega)
+  refine ⟨hle, by simp only [recover]; omega, ?_⟩
+  simp only [recover]
+  have c0 := h0.count
+  have c1 := h1.count
+  rw [← h0.level] at c0
+  rw [← h1.level] at c1
+  omega
+
+/-! Non-vacuity (tests): mark, mark, bump, complete inner, (outer dropped) → level 1 = one open node;
+recovery to level 0 closes it. -/
+example : (run step S.init [.mark, .mark, .bump, .complete 1]).map (fun s => (s.markLevel, starts s.events, ends s.events))
+    = some (1, 2, 1) := by decide
+example : (run step S.init [.mark, .mark, .bump, .complete 1]).map (fun s => ((recover 0 s).markLevel, ends (recover 0 s).events))
+    = some (0, 2) := by decide
+
+end Marker
